@@ -176,9 +176,7 @@ Section Lookback.
   Variable enc : E -> option Z.
   Variable dec : Z -> option E.
   Variable dflt : E.
-  Variable steps : E -> Z.
   Variable dists : list Z.
-  Variable bits : Z.
   Hypothesis eqb_spec : forall a b, eqb a b = true <-> a = b.
   (* the wrapped OneHotEncoding is a bijection onto [0, n) on the valid events (property C09) *)
   Variable valid : E -> Prop.
@@ -300,6 +298,9 @@ Section Lookback.
     intros Hl. unfold decode, lb_decode, lb_rev_enum, lb_num_classes, lb_k in *. rewrite lb_find_spec.
     destruct ((n <=? l) && (l <? n + zlen dists)) eqn:Hin; [lia|reflexivity].
   Qed.
+
+  Variable steps : E -> Z.
+  Variable bits : Z.
 
   Theorem lookback_generation_total ls evs :
     (forall c, 0 <= c < n -> dec c <> None) ->
